@@ -1,0 +1,25 @@
+//! Verification hooks of the VFS (compiled only with `--cfg fuse_backend_rs_verif`).
+//!
+//! `yield_point(label)` is called right before every load (`ld_mp`, `ld_sb`, `ld_map`) and every store
+//! (`st_mp`, `st_sb`, `st_map`) of the ArcSwap snapshots `mountpoints`, `superblocks` and
+//! `mount_id_mappings` on the mount / umount paths and on the request paths (`get_real_rootfs`,
+//! `lookup_pseudo`, `get_effective_id_mapping`, `id_remap_with_nodeid`, readdir(plus) of a pseudo
+//! directory). It is a no-op unless a scheduler callback has been installed with `set_hook`.
+use std::sync::RwLock;
+
+/// Scheduler callback type: receives the label of the yield point reached by the calling thread.
+pub type Hook = Box<dyn Fn(&'static str) + Send + Sync>;
+
+static HOOK: RwLock<Option<Hook>> = RwLock::new(None);
+
+/// Install (or remove with `None`) the scheduler callback.
+pub fn set_hook(h: Option<Hook>) {
+    *HOOK.write().unwrap() = h;
+}
+
+/// Yield point; does nothing unless a hook is installed.
+pub fn yield_point(label: &'static str) {
+    if let Some(h) = HOOK.read().unwrap().as_ref() {
+        h(label)
+    }
+}
